@@ -112,6 +112,7 @@ func build(prop string, plan Plan, race bool) (string, error) {
 		sum, _ := os.ReadFile(filepath.Join(root, "go.sum"))
 		_ = os.WriteFile(strings.TrimSuffix(altMod, ".mod")+".sum", sum, 0o644)
 		args = append(args, "-modfile="+altMod)
+		os.Setenv("VERIF_MODFILE", altMod) // for checks that build further binaries themselves (C36)
 	}
 	args = append(args, "-o", bin, plan.Pkg)
 	cmd := exec.Command("go", args...)
